@@ -1165,6 +1165,10 @@ class Network:
 
         # Complete expected response futures
         for expected_response in self._expected_response_futures:
+            if expected_response.done():
+                # Completed or cancelled but its done callback did not run yet
+                continue
+
             if expected_response.matches(connection, message):
                 expected_response.set_result((connection, message, ))
 
